@@ -589,6 +589,7 @@ def write_evidence(prop, tier, seed, merged, wall, n_viol, n_known, reported, ha
                 "user callbacks (the simulator's own)",
             ],
         },
+        "repo_root": egsim.REPO_ROOT,
         "planned_runs": merged["planned"],
         "pinned_regression_histories_replayed": len(merged.get("regress", [])),
         "pinned_regression_histories_reproducing": sum(
